@@ -93,7 +93,7 @@ def over_sample(func):
         perform_over_sampling = perform_over_sampling_from(grid=grid, kwargs=kwargs)
 
         if not perform_over_sampling:
-            return func(obj=obj, grid=grid, *args, **kwargs)
+            return func(obj, grid, *args, **kwargs)
 
         kwargs["over_sampling_being_performed"] = True
 
